@@ -1186,7 +1186,7 @@ class Check(BaseCheck):
                 informative = informative or counts['informative'] > 0
                 if bad is not None:
                     sig, detail = bad
-                    sig = dict(sig, part='P')
+                    sig = dict(sig, part='P', prog=prog.tag)
                     case = dict(case0, input=list(inp), limit=lim, signature=sig)
                     yield sig, case, (f'{prog.fam} program under ctx {cname}, argument formats {argf}, route {route}, '
                                       f'loop_iter_limit {lim}, input {dict(zip(prog.args, inp))}:\n{prog.src.split("KONST = 1.5")[-1].strip()}\n{detail}')
